@@ -14,4 +14,4 @@ Separate Extraction
   Db.gc Db.gc_modelled Db.flush Db.close Db.open_scan Db.with_faults Db.db_empty Db.clear
   Conn.serve Conn.server_new Conn.put_db Conn.get_conn
   Redis.spec_step Redis.purge
-  Reader.ReadCommand Reader.rd_init Reader.enc_cmd Handlers.opt Handlers.opt1 Num.upper.
+  Api.api_type Reader.ReadCommand Reader.rd_init Reader.enc_cmd Handlers.opt Handlers.opt1 Num.upper.
